@@ -22,38 +22,46 @@ CONSTANT Strict
 Mut == "none"
 INSTANCE KrylovFn
 Traces == JsonDeserialize(IOEnv.TRACE_FILE)
-VARIABLES tid, l, bad, st, ph, cf, pend, ex, drifted, nonconv
-vars == <<tid, l, bad, st, ph, cf, pend, ex, drifted, nonconv>>
+VARIABLES tid, l, bad, st, prev, nops, ph, cf, pend, ex, drifted, nonconv
+vars == <<tid, l, bad, st, prev, nops, ph, cf, pend, ex, drifted, nonconv>>
 Ev == Traces[tid].events
 NoCf == [fn |-> "none", api |-> "none", maxdim |-> 0, maxr |-> 0]
 NoEx == [converged |-> FALSE, breakdown |-> FALSE, iters |-> 0, restarts |-> 0]
-Init == /\ tid \in 1..Len(Traces) /\ l = 1 /\ bad = "none" /\ st = [pc |-> "none"] /\ ph = "new"
+Init == /\ tid \in 1..Len(Traces) /\ l = 1 /\ bad = "none" /\ st = [pc |-> "none"] /\ prev = [pc |-> "none"] /\ nops = 0 /\ ph = "new"
         /\ cf = NoCf /\ pend = FALSE /\ ex = NoEx /\ drifted = FALSE /\ nonconv = FALSE
 
-Fail(c) == /\ bad' = c /\ UNCHANGED <<st, ph, cf, pend, ex, drifted, nonconv>>
+Fail(c) == /\ bad' = c /\ UNCHANGED <<st, prev, nops, ph, cf, pend, ex, drifted, nonconv>>
 \* mechanism mismatch: rejection when Strict, otherwise stop replaying the mechanism and go on
 Drift(c, nph, nex) ==
   IF Strict THEN Fail(c)
-  ELSE /\ drifted' = TRUE /\ ph' = nph /\ ex' = nex /\ bad' = bad /\ UNCHANGED <<st, cf, pend, nonconv>>
+  ELSE /\ drifted' = TRUE /\ ph' = nph /\ ex' = nex /\ bad' = bad /\ UNCHANGED <<st, prev, nops, cf, pend, nonconv>>
 
 \* the pending iteration turned out to be neither exit: next iteration (minimiser: possibly next cycle)
-ContExp(s) == ExpIterate(s, FALSE, FALSE)
+ContExp(s) == ExpIterate(s, FALSE, FALSE, FALSE)
 ContMin(s) == LET c == MinIterate(s, 1, FALSE, 1) IN
               IF MinCanExhaust(c) THEN MinAfterCycle(MinCycleExhaust(c)) ELSE c
 Cont(s) == IF cf.fn = "exp" THEN ContExp(s) ELSE ContMin(s)
 CanIter(s) == IF cf.fn = "exp" THEN ExpCanIterate(s) ELSE MinCanIterate(s)
-\* the pending iteration is the one the result record describes
+\* The operator applications are logged one by one, but not what they were for.  The replay reads every
+\* application as the start of an iteration (a false alarm followed by the reuse of its product has the same
+\* count); at the result record the LAST application is either the start of the final iteration (Close) or
+\* the confirming application of the iteration before it (CloseConfirm, from the state `prev` before that one).
 Close(s, e) ==
   IF cf.fn = "exp" THEN
-       IF e.breakdown THEN ExpIterate(s, TRUE, FALSE)
-       ELSE IF e.converged THEN ExpIterate(s, FALSE, TRUE)
+       IF e.breakdown THEN ExpIterate(s, TRUE, FALSE, FALSE)
+       ELSE IF e.converged THEN s                                   \* impossible without a confirming application
        ELSE LET c == ContExp(s) IN IF ExpCanExhaust(c) THEN ExpExhaust(c) ELSE c
   ELSE IF e.breakdown THEN MinAfterCycle(MinIterate(s, 0, TRUE, 1))
        ELSE IF e.converged THEN MinAfterCycle(MinIterate(s, 0, FALSE, 1))
        ELSE ContMin(s)
+CloseConfirm(p, e) ==
+  IF cf.fn # "exp" \/ p.pc # "loop" THEN p
+  ELSE IF e.converged /\ ~e.breakdown THEN ExpIterate(p, FALSE, TRUE, TRUE)
+  ELSE IF ~e.converged THEN LET c == ExpIterate(p, FALSE, TRUE, FALSE) IN IF ExpCanExhaust(c) THEN ExpExhaust(c) ELSE c
+  ELSE p
 Matches(s, e) ==
   /\ s.pc = "impl_ret" /\ s.conv = e.converged /\ s.bd = e.breakdown
-  /\ IF cf.fn = "exp" THEN s.iters = e.iters ELSE (s.total = e.iters /\ s.restarts = e.restarts)
+  /\ IF cf.fn = "exp" THEN (s.iters = e.iters /\ s.ops = nops) ELSE (s.total = e.iters /\ s.restarts = e.restarts)
 Wrap(s) == IF cf.fn = "exp" THEN ExpWrap(s) ELSE MinWrap(s)
 ExRec(e) == [converged |-> e.converged, breakdown |-> e.breakdown, iters |-> e.iters, restarts |-> e.restarts]
 
@@ -75,35 +83,40 @@ Step ==
             ELSE IF ~(e.maxdim >= 1 /\ e.maxr >= 0) THEN Fail("harness:max_krylov_dim>=1")
             ELSE /\ cf' = [fn |-> e.fn, api |-> e.api, maxdim |-> e.maxdim, maxr |-> e.maxr]
                  /\ st' = IF e.fn = "exp" THEN ExpNew(e.maxdim) ELSE MinNew(e.maxdim, e.maxr)
+                 /\ prev' = [pc |-> "none"] /\ nops' = 0
                  /\ ph' = "run" /\ bad' = bad /\ UNCHANGED <<pend, ex, drifted, nonconv>>
        [] e.ev = "op" ->
             IF ph # "run" THEN Fail("mech:op-applied-after-the-result-record")
-            ELSE IF drifted THEN /\ bad' = bad /\ UNCHANGED <<st, ph, cf, pend, ex, drifted, nonconv>>
+            ELSE IF drifted THEN /\ bad' = bad /\ UNCHANGED <<st, prev, nops, ph, cf, pend, ex, drifted, nonconv>>
             ELSE LET s1 == IF pend THEN Cont(st) ELSE st IN
-                 IF ~CanIter(s1) THEN Drift("mech:more-operator-applications-than-the-loops-allow", ph, ex)
-                 ELSE /\ st' = s1 /\ pend' = TRUE /\ bad' = bad /\ UNCHANGED <<ph, cf, ex, drifted, nonconv>>
+                 IF ~CanIter(s1) /\ ~(cf.fn = "exp" /\ pend /\ ExpCanExhaust(s1))
+                 THEN Drift("mech:more-operator-applications-than-the-loops-allow", ph, ex)
+                 ELSE /\ st' = s1 /\ prev' = st /\ nops' = nops + 1 /\ pend' = TRUE /\ bad' = bad
+                      /\ UNCHANGED <<ph, cf, ex, drifted, nonconv>>
        [] e.ev = "exit" ->
             IF ph # "run" THEN Fail("exit-out-of-order")
             ELSE IF cf.fn = "exp" /\ ~ExpReqItersBounded(e.iters, cf.maxdim) THEN Fail("req:iterations<=max_krylov_dim")
             ELSE IF cf.fn = "min" /\ ~MinReqRestartsBounded(e.restarts, cf.maxr) THEN Fail("req:restarts<=max_restarts")
             ELSE IF cf.fn = "min" /\ ~MinReqItersBounded(e.iters, e.restarts, cf.maxdim) THEN Fail("req:iterations<=max_krylov_dim*(restarts+1)")
-            ELSE IF drifted THEN /\ ex' = ExRec(e) /\ ph' = "exited" /\ bad' = bad /\ UNCHANGED <<st, cf, pend, drifted, nonconv>>
+            ELSE IF drifted THEN /\ ex' = ExRec(e) /\ ph' = "exited" /\ bad' = bad /\ UNCHANGED <<st, prev, nops, cf, pend, drifted, nonconv>>
             ELSE IF ~pend THEN Drift("mech:result-record-without-any-operator-application", "exited", ExRec(e))
-            ELSE LET s1 == Close(st, e) IN
-                 IF ~Matches(s1, e) THEN Drift("mech:result-record-differs-from-the-model-for-this-path", "exited", ExRec(e))
-                 ELSE /\ st' = s1 /\ ex' = ExRec(e) /\ ph' = "exited" /\ pend' = FALSE /\ bad' = bad
-                      /\ UNCHANGED <<cf, drifted, nonconv>>
+            ELSE LET s1 == IF CanIter(st) THEN Close(st, e) ELSE st
+                     s2 == CloseConfirm(prev, e)
+                     sm == IF Matches(s1, e) THEN s1 ELSE s2 IN
+                 IF ~Matches(sm, e) THEN Drift("mech:result-record-differs-from-the-model-for-this-path", "exited", ExRec(e))
+                 ELSE /\ st' = sm /\ ex' = ExRec(e) /\ ph' = "exited" /\ pend' = FALSE /\ bad' = bad
+                      /\ UNCHANGED <<prev, nops, cf, drifted, nonconv>>
        [] e.ev = "result" ->
             IF ph # "exited" \/ cf.api # "impl" THEN Fail("result-out-of-order")
             ELSE IF AtomClause(e) # "ok" THEN Fail(AtomClause(e))
-            ELSE /\ ph' = "done" /\ bad' = bad /\ UNCHANGED <<st, cf, pend, ex, drifted, nonconv>>
+            ELSE /\ ph' = "done" /\ bad' = bad /\ UNCHANGED <<st, prev, nops, cf, pend, ex, drifted, nonconv>>
        [] e.ev = "return" ->
             IF ph # "exited" \/ cf.api # "public" THEN Fail("return-out-of-order")
             ELSE IF cf.fn = "exp" /\ ~ExpReqRaiseIff("returned", ex.converged) THEN Fail("req:not-converged=>raises")
             ELSE IF AtomClause(e) # "ok" THEN Fail(AtomClause(e))
             ELSE IF cf.fn = "exp" /\ ~ExpReqReturnedAccurate("returned", e.accurate) THEN Fail("req:returned=>accurate")
             ELSE IF ~drifted /\ Wrap(st).outcome # "returned" THEN Drift("mech:wrapper-returned-where-the-model-raises", "done", ex)
-            ELSE /\ ph' = "done" /\ bad' = bad /\ UNCHANGED <<st, cf, pend, ex, drifted, nonconv>>
+            ELSE /\ ph' = "done" /\ bad' = bad /\ UNCHANGED <<st, prev, nops, cf, pend, ex, drifted, nonconv>>
        [] e.ev = "raise" ->
             IF ph = "run" /\ cf.api = "impl" THEN Fail("req:impl-raised-instead-of-returning")
             ELSE IF ph = "run" THEN Fail("req:raised-before-the-result-record")
@@ -111,10 +124,10 @@ Step ==
             ELSE IF e.exc # "RecursionError" THEN Fail("req:unexpected-exception-type")
             ELSE IF cf.fn = "exp" /\ ~ExpReqRaiseIff("raised", ex.converged) THEN Fail("req:raised-although-converged")
             ELSE IF ~drifted /\ Wrap(st).outcome # "raised" THEN Drift("mech:wrapper-raised-where-the-model-returns", "done", ex)
-            ELSE /\ ph' = "done" /\ bad' = bad /\ UNCHANGED <<st, cf, pend, ex, drifted, nonconv>>
+            ELSE /\ ph' = "done" /\ bad' = bad /\ UNCHANGED <<st, prev, nops, cf, pend, ex, drifted, nonconv>>
        [] e.ev = "insitu" ->
             IF ph # "new" THEN Fail("insitu-twice")
-            ELSE /\ ph' = "insitu" /\ bad' = bad /\ UNCHANGED <<st, cf, pend, ex, drifted, nonconv>>
+            ELSE /\ ph' = "insitu" /\ bad' = bad /\ UNCHANGED <<st, prev, nops, cf, pend, ex, drifted, nonconv>>
        [] e.ev = "xexit" ->
             IF ph # "insitu" THEN Fail("xexit-out-of-order")
             ELSE IF nonconv THEN Fail("req:run-continued-after-a-non-converged-exponential")
@@ -123,12 +136,12 @@ Step ==
             ELSE IF e.fn = "min" /\ e.maxdim > 0 /\ ~MinReqItersBounded(e.iters, e.restarts, e.maxdim) THEN Fail("req:iterations<=max_krylov_dim*(restarts+1)")
             ELSE IF Strict /\ e.breakdown /\ ~e.converged THEN Fail("mech:breakdown=>converged")
             ELSE /\ nonconv' = (e.fn = "exp" /\ ~e.converged) /\ bad' = bad
-                 /\ UNCHANGED <<st, ph, cf, pend, ex, drifted>>
+                 /\ UNCHANGED <<st, prev, nops, ph, cf, pend, ex, drifted>>
        [] e.ev = "run" ->
             IF ph # "insitu" THEN Fail("run-out-of-order")
             ELSE IF e.outcome = "returned" /\ nonconv THEN Fail("req:not-converged=>raises")
             ELSE IF e.outcome = "raised" /\ e.exc = "RecursionError" /\ e.fn = "exp" /\ ~nonconv THEN Fail("req:raised-although-converged")
-            ELSE /\ ph' = "done" /\ bad' = bad /\ UNCHANGED <<st, cf, pend, ex, drifted, nonconv>>
+            ELSE /\ ph' = "done" /\ bad' = bad /\ UNCHANGED <<st, prev, nops, cf, pend, ex, drifted, nonconv>>
        [] OTHER -> Fail("unknown-event")
   /\ l' = l + 1 /\ UNCHANGED tid
 Next == Step
